@@ -103,6 +103,15 @@ class FieldStr:
         return self
 
 
+class CatField:
+    """node.cat inside a printer: its text is a field of the output (kept apart in f-strings however they are nested or split)"""
+    def __init__(self, I, g):
+        self.I, self.g = I, g
+
+    def py_str(self, I, node):
+        return FieldStr(ct(I, self.g))
+
+
 class SegStr:
     """the text rec(child) returned: stands for toks(child)"""
     fstring_part = True
@@ -134,6 +143,13 @@ def pieces(I, fs):
     for r in runs:
         if not r:
             return None                 # two blanks in a row / leading or trailing blank: an empty piece
+        merged = []
+        for x in r:                      # adjacent literals (text split over several f-strings) are one literal
+            if isinstance(x, str) and merged and isinstance(merged[-1], str):
+                merged[-1] += x
+            else:
+                merged.append(x)
+        r = merged
         sv = lambda x: x.e if isinstance(x, (Z, FieldStr)) else None
         if r == ['(<L']:
             out.append(K.OpenL)
@@ -175,6 +191,8 @@ class AutoTree(SymTree):
             if not I.branch(T.is_Leaf(self.e), node):
                 raise CheckerError('Tree.word of an inner node (a blank-separated phrase) is outside the model')
             return Z(RAW_WORD(T.ltag(self.e)))
+        if name == 'cat':
+            return CatField(I, tag(self.e))
         v = SymTree.getattr(self, I, name, node)
         if isinstance(v, SymTree) and not isinstance(v, AutoTree):
             return AutoTree(v.e)
